@@ -71,21 +71,14 @@ Proof. intros s H. apply write_string_avoids; [exact H|reflexivity|discriminate|
 (* ---------------------------------------------------------------------------------------- *)
 (* characters (ASCII) *)
 
-Lemma write_char_lazy : forall c ch, ch < 128 -> parse_char_raw (pct_dec (write_char c ch)) = Some ch.
+Lemma write_char_dec : forall c ch, ch < 128 -> parse_char (write_char c ch) = Some ch.
 Proof.
-  intros c ch H. unfold write_char. destruct (chr_set c ch) eqn:E.
+  intros c ch H. unfold parse_char, write_char. destruct (chr_set c ch) eqn:E.
   - rewrite <- (app_nil_r (pct_byte ch)). rewrite pct_dec_pct_byte by lia. reflexivity.
   - cbn [pct_dec]. destruct (ch =? 37) eqn:E37.
     + apply N.eqb_eq in E37. subst ch. destruct c; cbn in E; discriminate.
     + reflexivity.
 Qed.
-
-(* the eager readers do not decode: only characters outside the escape set come back *)
-Lemma write_char_eager : forall c ch, chr_set c ch = false -> parse_char_raw (write_char c ch) = Some ch.
-Proof. intros c ch H. unfold write_char. rewrite H. reflexivity. Qed.
-
-Lemma write_char_eager_reserved : forall c ch, chr_set c ch = true -> parse_char_raw (write_char c ch) = None.
-Proof. intros c ch H. unfold write_char. rewrite H. reflexivity. Qed.
 
 Lemma chr_set_cases : forall c ch b, ch < 128 -> In b (write_char c ch) ->
   (b = ch /\ chr_set c ch = false) \/ b = 37 \/ is_hex_upper b = true.
@@ -308,34 +301,27 @@ Hypothesis float_chars : forall b x, FOK b -> In x (fmt_float b) ->
 Hypothesis float_not_dot : forall b, FOK b -> fmt_float b <> dot.
 Hypothesis float_nonempty : forall b, FOK b -> fmt_float b <> [].
 
-Definition chr_ok (c : ctx) (lazy : bool) (ch : N) : Prop :=
-  ch < 128 /\ (lazy = true \/ chr_set c ch = false).
+Definition chr_ok (ch : N) : Prop := ch < 128.
 
 Definition arr_shape {A} (l : list (option A)) : Prop := l <> [] /\ l <> [None].
 
-(* the values the property quantifies over, per reader.  For the eager reader Characters of the
-   writer's escape set are excluded (known finding: they are not decoded). *)
-Definition val_ok (c : ctx) (lazy : bool) (v : value) : Prop :=
+(* the values the property quantifies over (the same for both readers) *)
+Definition val_ok (v : value) : Prop :=
   match v with
   | VInteger z => i32_ok z
   | VFloat b => FOK b
   | VFlag => True
-  | VCharacter ch => chr_ok c lazy ch
+  | VCharacter ch => chr_ok ch
   | VString s => bytes_ok s
   | VIntArr l => arr_shape l /\ forall z, In (Some z) l -> i32_ok z
   | VFloatArr l => arr_shape l /\ forall b, In (Some b) l -> FOK b
-  | VCharArr l => arr_shape l /\ forall ch, In (Some ch) l -> chr_ok c lazy ch
+  | VCharArr l => arr_shape l /\ forall ch, In (Some ch) l -> chr_ok ch
   | VStrArr l => arr_shape l /\ forall s, In (Some s) l -> bytes_ok s /\ s <> []
   | VGenotype _ => False
   end.
 
-Lemma parse_char_write : forall c lazy ch, chr_ok c lazy ch ->
-  parse_char lazy (write_char c ch) = Some ch.
-Proof.
-  intros c lazy ch [H1 H2]. unfold parse_char. destruct lazy.
-  - now apply write_char_lazy.
-  - destruct H2 as [H2|H2]; [discriminate|]. now apply write_char_eager.
-Qed.
+Lemma parse_char_write : forall c ch, chr_ok ch -> parse_char (write_char c ch) = Some ch.
+Proof. intros c ch H. now apply write_char_dec. Qed.
 
 Lemma i32_ok_range : forall z, i32_ok z -> (-2147483648 <= z <= 2147483647)%Z.
 Proof. unfold i32_ok. lia. Qed.
@@ -351,7 +337,7 @@ Proof. intros [n|] H; cbn in *; [split; lia|split; reflexivity]. Qed.
 
 (* write then parse, any value of the modelled fragment, either reader *)
 Theorem value_roundtrip : forall c lazy v44 num ty v t,
-  val_ok c lazy v -> typed num ty v -> v <> VFlag ->
+  val_ok v -> typed num ty v -> v <> VFlag ->
   write_value fmt_float c v44 v = Some t ->
   parse_value prs_float lazy num ty t = Some v.
 Proof.
@@ -386,9 +372,9 @@ Proof.
     destruct (is_arr_flags num Ha) as [E0 E1]. unfold parse_value. rewrite E0, E1.
     rewrite parse_arr_nonempty.
     + erewrite items_roundtrip; [reflexivity|exact Hne| |exact Hw].
-      intros a t' Hin Hwa. inversion Hwa; subst t'. specialize (Hz a Hin). destruct Hz as [Hz1 Hz2].
+      intros a t' Hin Hwa. inversion Hwa; subst t'. specialize (Hz a Hin).
       repeat split; [|now apply write_char_not_dot|now apply parse_char_write].
-      apply write_char_avoids; [exact Hz1|destruct c; reflexivity|discriminate|reflexivity].
+      apply write_char_avoids; [exact Hz|destruct c; reflexivity|discriminate|reflexivity].
     + eapply items_nonempty; [exact Hne| |exact Hw]. intros a t' Hin Hwa.
       inversion Hwa. apply write_char_nonempty.
   - destruct Hty as [Ha ->]. destruct Hok as [[Hne Hn1] Hz].
@@ -403,30 +389,30 @@ Proof.
 Qed.
 
 
-Lemma value_not_dot : forall c lazy v44 v t,
-  val_ok c lazy v -> v <> VFlag -> write_value fmt_float c v44 v = Some t -> t <> dot.
+Lemma value_not_dot : forall c v44 v t,
+  val_ok v -> v <> VFlag -> write_value fmt_float c v44 v = Some t -> t <> dot.
 Proof.
-  intros c lazy v44 v t Hok Hnf Hw.
+  intros c v44 v t Hok Hnf Hw.
   destruct v as [z|b| |ch|s|l|l|l|l|g]; cbn [val_ok write_value] in *; try contradiction.
   - rewrite write_int_ok in Hw by exact Hok. inversion Hw. apply fmt_int_not_dot.
   - inversion Hw. now apply float_not_dot.
-  - inversion Hw. apply write_char_not_dot. now destruct Hok.
+  - inversion Hw. now apply write_char_not_dot.
   - inversion Hw. apply write_string_not_dot.
   - destruct Hok as [[Hne Hn1] Hz]. eapply items_not_dot; [|exact Hn1|exact Hne|exact Hw].
     intros a t' Hin Hwa. rewrite write_int_ok in Hwa by (now apply Hz). inversion Hwa. apply fmt_int_not_dot.
   - destruct Hok as [[Hne Hn1] Hz]. eapply items_not_dot; [|exact Hn1|exact Hne|exact Hw].
     intros a t' Hin Hwa. inversion Hwa. now apply float_not_dot, Hz.
   - destruct Hok as [[Hne Hn1] Hz]. eapply items_not_dot; [|exact Hn1|exact Hne|exact Hw].
-    intros a t' Hin Hwa. inversion Hwa. apply write_char_not_dot. now destruct (Hz a Hin).
+    intros a t' Hin Hwa. inversion Hwa. apply write_char_not_dot. exact (Hz a Hin).
   - destruct Hok as [[Hne Hn1] Hz]. eapply items_not_dot; [|exact Hn1|exact Hne|exact Hw].
     intros a t' Hin Hwa. inversion Hwa. apply write_string_not_dot.
 Qed.
 
 (* no TAB, LF, and no ';' (INFO) / ':' (FORMAT) inside a written value *)
-Lemma value_avoids : forall c lazy v44 v t b,
-  val_ok c lazy v -> write_value fmt_float c v44 v = Some t -> delim c b -> ~ In b t.
+Lemma value_avoids : forall c v44 v t b,
+  val_ok v -> write_value fmt_float c v44 v = Some t -> delim c b -> ~ In b t.
 Proof.
-  intros c lazy v44 v t b Hok Hw Hd Hin.
+  intros c v44 v t b Hok Hw Hd Hin.
   assert (Hb : b <> 44 /\ b <> 46 /\ b <> 45 /\ (b < 48 \/ 57 < b) /\ b <> 37 /\ is_hex_upper b = false /\ str_set c b = true /\ chr_set c b = true).
   { destruct c; cbn [delim] in Hd; destruct Hd as [E|[E|E]]; subst b; repeat split; try discriminate; try reflexivity; try (left; reflexivity); try (right; reflexivity). }
   destruct Hb as (B44 & B46 & B45 & Bdig & B37 & Bhex & Bstr & Bchr).
@@ -438,14 +424,14 @@ Proof.
   - rewrite write_int_ok in Hw by exact Hok. inversion Hw; subst t. now apply (Hint z).
   - inversion Hw; subst t. now apply (Hflt x).
   - inversion Hw; subst t. destruct Hin.
-  - inversion Hw; subst t. destruct Hok as [Hc _]. revert Hin. now apply write_char_avoids.
+  - inversion Hw; subst t. revert Hin. now apply write_char_avoids.
   - inversion Hw; subst t. revert Hin. now apply write_string_avoids.
   - destruct Hok as [_ Hz]. destruct (items_bytes _ _ _ _ _ Hw Hin) as [E|[E|(a & t' & H1 & H2 & H3)]]; try congruence.
     rewrite write_int_ok in H2 by (now apply Hz). inversion H2; subst t'. exact (Hint a H3).
   - destruct Hok as [_ Hz]. destruct (items_bytes _ _ _ _ _ Hw Hin) as [E|[E|(a & t' & H1 & H2 & H3)]]; try congruence.
     inversion H2; subst t'. exact (Hflt a (Hz a H1) H3).
   - destruct Hok as [_ Hz]. destruct (items_bytes _ _ _ _ _ Hw Hin) as [E|[E|(a & t' & H1 & H2 & H3)]]; try congruence.
-    inversion H2; subst t'. destruct (Hz a H1) as [Hc _]. revert H3. now apply write_char_avoids.
+    inversion H2; subst t'. pose proof (Hz a H1) as Hc. revert H3. now apply write_char_avoids.
   - destruct Hok as [_ Hz]. destruct (items_bytes _ _ _ _ _ Hw Hin) as [E|[E|(a & t' & H1 & H2 & H3)]]; try congruence.
     inversion H2; subst t'. destruct (Hz a H1) as [Hc _]. revert H3. now apply write_string_avoids.
 Qed.
@@ -453,7 +439,7 @@ Qed.
 (* one INFO field: key=value, key (Flag) or key=. ; both readers *)
 Theorem info_field_roundtrip : forall lazy num ty key ov t,
   ~ In 61 key ->
-  match ov with Some v => val_ok CInfo lazy v /\ typed num ty v | None => True end ->
+  match ov with Some v => val_ok v /\ typed num ty v | None => True end ->
   write_info_field fmt_float key ov = Some t ->
   parse_info_field prs_float lazy num ty t = Some ov.
 Proof.
@@ -470,7 +456,7 @@ Proof.
           inversion Hw; eexists; split; reflexivity. }
       destruct Hw' as (t' & Hw' & ->).
       pose proof (value_roundtrip CInfo lazy false num ty v t' Hok Hty Hnf Hw') as Hp.
-      pose proof (value_not_dot CInfo lazy false v t' Hok Hnf Hw') as Hd.
+      pose proof (value_not_dot CInfo false v t' Hok Hnf Hw') as Hd.
       unfold parse_info_field. rewrite (split_once_app 61 key t' Hkey).
       rewrite (bytes_eqb_neq _ _ Hd), Hp.
       destruct lazy; [reflexivity|]. destruct ty; try reflexivity.
@@ -504,14 +490,6 @@ Proof.
               |now apply write_string_format_no_colon].
 Qed.
 
-Lemma val_ok_eager_lazy : forall FOK c v, val_ok FOK c false v -> val_ok FOK c true v.
-Proof.
-  intros FOK c v H. destruct v; cbn [val_ok] in *; try exact H.
-  - destruct H as [H1 _]. split; [exact H1|now left].
-  - destruct H as [Hs Hc]. split; [exact Hs|]. intros ch Hin. destruct (Hc ch Hin) as [H1 _].
-    split; [exact H1|now left].
-Qed.
-
 Lemma value_lazy_eq_eager :
   forall fmt_float prs_float (FOK : N -> Prop),
   (forall b, FOK b -> prs_float (fmt_float b) = Some b) ->
@@ -519,21 +497,22 @@ Lemma value_lazy_eq_eager :
   (forall b, FOK b -> fmt_float b <> dot) ->
   (forall b, FOK b -> fmt_float b <> []) ->
   forall c v44 num ty v t,
-  val_ok FOK c false v -> typed num ty v -> v <> VFlag ->
+  val_ok FOK v -> typed num ty v -> v <> VFlag ->
   write_value fmt_float c v44 v = Some t ->
   parse_value prs_float true num ty t = parse_value prs_float false num ty t.
 Proof.
   intros fmt prs FOK H1 H2 H3 H4 c v44 num ty v t Hok Hty Hnf Hw.
   rewrite (value_roundtrip fmt prs FOK H1 H2 H3 H4 c false v44 num ty v t Hok Hty Hnf Hw).
-  exact (value_roundtrip fmt prs FOK H1 H2 H3 H4 c true v44 num ty v t (val_ok_eager_lazy FOK c v Hok) Hty Hnf Hw).
+  exact (value_roundtrip fmt prs FOK H1 H2 H3 H4 c true v44 num ty v t Hok Hty Hnf Hw).
 Qed.
 
-Lemma char_reserved_refuted : exists prs c ch,
-  ch < 128 /\
-  parse_value prs false (NCount 1) TCharacter (write_char c ch) = None /\
-  parse_value prs true (NCount 1) TCharacter (write_char c ch) = Some (VCharacter ch).
-Proof. exists (fun _ => None), CInfo, 59. vm_compute. repeat split. Qed.
+(* every ASCII Character, also those of the writers' escape sets, through either reader *)
+Lemma char_roundtrip : forall prs c lazy ch, ch < 128 ->
+  parse_value prs lazy (NCount 1) TCharacter (write_char c ch) = Some (VCharacter ch).
+Proof. intros prs c lazy ch H. unfold parse_value. cbn. now rewrite write_char_dec. Qed.
 
-Lemma empty_sample_refuted : exists fmt prs ds,
-  write_sample fmt false [] = Some [] /\ parse_sample_eager prs ds [] = None.
-Proof. exists (fun _ => []), (fun _ => None), [FGt]. vm_compute. split; reflexivity. Qed.
+(* a sample without values is written "." and read back as a sample without values *)
+Lemma empty_sample_roundtrip : forall fmt prs v44 ds,
+  write_sample fmt v44 [] = Some dot /\
+  parse_sample_eager prs ds dot = Some [] /\ parse_sample_lazy prs ds dot = Some [].
+Proof. intros. repeat split. Qed.
